@@ -19,7 +19,7 @@ RULE = ('data nodes (scalars, lists, mappings, !call producing fresh objects) sp
         'scalar) under the key of a reference; optionally a previous build with the same EvalContext; '
         'non-trivial = identity checked on a fresh mutable target through a chain of length >=2 or with fan-in >=2, or the graph has a '
         'cycle / dangling edge; distinct = hash of the case.  Every build runs under a budget of %d line events.' % 400000)
-BUDGET = {'quick': (4, 250), 'thorough': (16, 5000)}
+BUDGET = {'quick': (4, 400), 'thorough': (16, 5000)}
 STEP_LIMIT = 5000000
 MAX_STEPS = 0
 ASSUMPTIONS = ['reference paths that run through another reference are not generated (the statement speaks of chains)',
@@ -69,7 +69,7 @@ def _case(draw):
             else:
                 s['to'] = DATA_TARGETS[draw(st.integers(0, len(DATA_TARGETS) - 1))]
         else:
-            kind = draw(st.sampled_from(['data'] * 6 + ['ref'] * 5 + ([] if clean else ['missing', 'self', 'deepmissing', 'root'])))
+            kind = draw(st.sampled_from(['data'] * 6 + ['ref'] * 5 + ([] if clean else ['missing', 'self', 'deepmissing', 'deepmissing', 'root'])))
             if kind == 'ref' and clean and i + 1 >= nrefs:
                 kind = 'data'
             if kind == 'data':
